@@ -42,6 +42,7 @@ type c14Task struct {
 	soloCtx     func() *parsley.Context // same placement as in the concurrent phase, fresh objects
 	StaticCheck bool       `json:"static_check,omitempty"`
 	Transform   bool       `json:"transform,omitempty"` // ctx.EnableTransformation()
+	Twice       bool       `json:"twice,omitempty"`     // the run uses its context twice: a Parse (syntax check) and then the Parse / Evaluate proper
 }
 
 type c14Case struct {
@@ -196,7 +197,7 @@ func (*c14Prop) Gen(r *Rand, pl *Plan) Case {
 	c.ShareFiles = !useFiles && r.Chance(1, 10)
 	c.ShareFileSet = !useFiles && !c.ShareFiles && r.Chance(1, 10) // (prefix / huge placements of the tasks are ignored in this mode)
 	for i := 0; i < nt; i++ {
-		t := c14Task{Graph: r.Intn(ng), Eval: r.Chance(2, 3), StaticCheck: r.Chance(1, 6), Transform: r.Chance(1, 6)}
+		t := c14Task{Graph: r.Intn(ng), Eval: r.Chance(2, 3), StaticCheck: r.Chance(1, 6), Transform: r.Chance(1, 6), Twice: r.Chance(1, 6)}
 		spec := &c.Graphs[t.Graph]
 		if r.Chance(1, 6) {
 			own := genGraphSpec(r)
@@ -358,6 +359,11 @@ func (t *c14Task) observeCtx(p parsley.Parser, prepared *parsley.Context) (obs s
 		ctx.EnableTransformation()
 	}
 	var sb strings.Builder
+	if t.Twice {
+		n, err := parsley.Parse(ctx, p)
+		s, _ := renderNode(n, 1<<14)
+		fmt.Fprintf(&sb, "first=%s err=%v calls=%d | ", s, err, ctx.CallCount())
+	}
 	if t.Eval {
 		v, err := parsley.Evaluate(ctx, p)
 		raw = v
@@ -882,9 +888,9 @@ func (*c14Prop) Shrink(cc Case) []Case {
 			k.Tasks[i].Frags = t.Frags[:len(t.Frags)-1]
 			out = append(out, k)
 		}
-		if t.StaticCheck || t.Transform {
+		if t.StaticCheck || t.Transform || t.Twice {
 			k := clone()
-			k.Tasks[i].StaticCheck, k.Tasks[i].Transform = false, false
+			k.Tasks[i].StaticCheck, k.Tasks[i].Transform, k.Tasks[i].Twice = false, false, false
 			out = append(out, k)
 		}
 		// shorten the input
